@@ -49,3 +49,4 @@ claim('C04', 'proof',
       'symbolic execution at a generic batch index + lemmas over contracts', ['roc_auc_score is scikit-learn (uninterpreted function of labels and decision values)'])
 META['C03'] = dict(level='proof', level_text='', level_note='', explanation='wip', assumptions=[], technique=TECH)
 META['C05'] = dict(level='proof', level_text='', level_note='', explanation='wip', assumptions=[], technique=TECH)
+META['C20'] = dict(level='proof', level_text='', level_note='', explanation='wip', assumptions=[], technique=TECH)
